@@ -364,10 +364,31 @@ def omo(job):
         applied = []
         rnd = random.Random(job.get("mut_seed", 0))
         objects = {**domain.constants, **problem.objects}
+        script = list(job.get("script") or [])
+        last = None
         for _ in range(job.get("muts", 0) if triplets else 0):
             slots = state_slots(triplets)
             i = rnd.randrange(len(slots))
-            m = choose_state_mutation(rnd, domain, objects, slots[i][0])
+            m = None
+            forced = script.pop(0) if script else None
+            if forced == "set-zero":
+                # a fluent of some state is given the value 0.0 ...
+                withf = [k for k, sl in enumerate(slots) if sl[0].state_fluents]
+                if withf:
+                    i = rnd.choice(withf)
+                    f = slots[i][0].state_fluents[sorted(slots[i][0].state_fluents)[rnd.randrange(len(slots[i][0].state_fluents))]]
+                    from ops_c14 import fluent_vars
+                    last = (i, f.name, fluent_vars(f))
+                    m = {"kind": "set-value", "name": last[1], "args": last[2], "val": fhex(rnd.choice([0.0, -0.0]))}
+            elif forced == "flip-zero" and last is not None:
+                # ... and then the OTHER zero: an equal number, another value
+                i = last[0]
+                cur = [f.value for f in slots[i][0].state_fluents.values() if f.name == last[1]]
+                import math
+                neg = bool(cur) and cur[0] == 0 and math.copysign(1, cur[0]) > 0
+                m = {"kind": "set-value", "name": last[1], "args": last[2], "val": fhex(-0.0 if neg else 0.0)}
+            if m is None:
+                m = choose_state_mutation(rnd, domain, objects, slots[i][0])
             done = []
             for k, s in enumerate(slots[i]):
                 try:
